@@ -137,6 +137,9 @@ def targeted_calls(ctx):
     add('np.create_ray_from_two_points', lambda: NR.create_ray_from_two_points([0, 0, 0], [1, 1, 1]))
     tt, rt = torch.tensor(tri, dtype=torch.float32), torch.tensor(ray, dtype=torch.float32)
     add('intersect_w_triangle', lambda: LR.intersect_w_triangle(rt, tt))
+    tt1 = tt.unsqueeze(0).clone()
+    add('intersect_w_triangle/1x3x3', lambda: LR.intersect_w_triangle(rt, tt1))
+    add('is_it_on_triangle/1x3x3', lambda: __import__('odak.learn.raytracing.primitives', fromlist=['x']).is_it_on_triangle(torch.tensor([[0.2, 0.2, 1.0]]), tt1))
     add('intersect_w_triangle_batch', lambda: LR.intersect_w_triangle_batch(rt.unsqueeze(0), tt.unsqueeze(0)))
     add('reflect', lambda: LR.reflect(rt, torch.tensor([[0.1, 0.1, 1.], [0, 0, 1.]])))
     add('refract', lambda: LR.refract(rt, torch.tensor([[0.1, 0.1, 1.], [0, 0, 1.]]), 1.0, 1.5))
@@ -203,23 +206,55 @@ def targeted_calls(ctx):
     add('learn.save_image', lambda: LT.save_image(os.path.join(tmpd, 'b.png'), torch.rand(3, 8, 8) * 255))
     add('save_dictionary', lambda: NT.save_dictionary({'a': [1, 2]}, os.path.join(tmpd, 'd.json')))
     add('write_to_text_file', lambda: NT.write_to_text_file(['a', 'b '], os.path.join(tmpd, 't.txt')))
+    import odak.learn.perception.steerable_pyramid_filters as SPF
+    from odak.learn.perception.spatial_steerable_pyramid import SpatialSteerablePyramid
+    for ftype in ('full', 'cropped', 'trained'):
+        add('get_steerable_pyramid_filters/' + ftype, lambda ftype=ftype: SPF.get_steerable_pyramid_filters(9, 2, ftype))
+    add('crop_steerable_pyramid_filters(fresh table)', lambda: SPF.crop_steerable_pyramid_filters(SPF.get_steerable_pyramid_filters(9, 2, 'full'), 5))
+    add('SpatialSteerablePyramid/full', lambda: SpatialSteerablePyramid(use_bilinear_downup=False, n_channels=1, filter_size=9, n_orientations=2, filter_type='full').construct_pyramid(
+        torch.arange(32 * 32, dtype=torch.float32).reshape(1, 1, 32, 32) / 1024., 2))
     ok = 0
+    probe_obj = getattr(ctx, '_probe', None)
+    if probe_obj is not None:
+        probe_obj.identity = True
     import random as _random
     from ..lib.mutation_probe import snap, same
     differing = []
+    kept_results = []           # (name, result object of the first call, its snapshot): must still hold at the very end, after every other call
     for name, f in calls:
         first = None
         for rep in range(2):         # a second call with the same arguments must see the same arguments ...
             try:
                 torch.manual_seed(1234); np.random.seed(1234); _random.seed(1234)     # ... and, with the same random state, return the same result
-                r = snap(f())
+                robj = f()
+                r = snap(robj)
                 ok += 1
             except (Exception, SystemExit):
                 break
             if rep == 0:
                 first = r
+                kept_results.append((name, robj, r, f))
             elif first is not None and not same(first, r):
                 differing.append(name)
+    if probe_obj is not None:
+        probe_obj.identity_calls.clear()        # the repeat below runs under the same probe (same re-seeding of random functions) as the first call
+    # at the very end, after the calls of every OTHER function: (a) the objects returned by the first calls still hold what they held (a later call of another
+    # function must not reach into a value handed out earlier), (b) the same call still returns the same result (no dependence on the calls in between)
+    changed_later, order_dependent = [], []
+    for name, robj, r0, f in kept_results:
+        try:
+            if not same(r0, snap(robj)):
+                changed_later.append(name)
+                continue
+            torch.manual_seed(1234); np.random.seed(1234); _random.seed(1234)
+            if not same(r0, snap(f())):
+                order_dependent.append(name)
+        except (Exception, SystemExit):
+            pass
+    if probe_obj is not None:
+        probe_obj.identity = False
+    ctx.extra['result_changed_by_later_calls'] = changed_later
+    ctx.extra['result_depends_on_calls_in_between'] = order_dependent
     shutil.rmtree(tmpd, ignore_errors=True)
     ctx.extra['repeat_result_differs'] = differing
     return len(calls), ok
@@ -240,6 +275,7 @@ def run(ctx):
         if q not in ALLOWED:
             ctx.alarm('proof', 'effect IR: %s may modify its argument(s) %s and is not a documented in-place function' % (q, predicted[q]))
     probe = Probe()
+    ctx._probe = probe
     probe.install()
     import contextlib
     import io
@@ -250,6 +286,26 @@ def run(ctx):
     finally:
         probe.uninstall()
     ctx.extra['targeted_calls'] = {'registered': n_calls, 'executions_ok': ok}
+    ctx.extra['identity_probed_callables'] = len(probe.identity_calls)
+    for q, what in sorted(probe.identity_dependent.items()):
+        ctx.violation('%s: %s (hidden state keyed on the identity of an argument)' % (q, what),
+                      {'callable': q, 'how': 'run ./check C20; the probe calls the function, multiplies every float argument in place by 1 + 2^-10 (tensors through '
+                                             '.data), calls it again with the same objects and once with fresh copies'},
+                      {'fn': q, 'what': 'identity_dependent'})
+    for q, what in sorted(probe.result_changed_later.items()):
+        if q in ALLOWED:
+            continue
+        ctx.violation('%s: %s (the result aliases internal state or an argument)' % (q, what),
+                      {'callable': q, 'how': 'run ./check C20; the probe keeps the first result, calls again with updated arguments and compares the kept object with its snapshot'},
+                      {'fn': q, 'what': 'result_changed_later'})
+    for nm in ctx.extra.get('result_changed_by_later_calls', []):
+        ctx.violation('%s: the value it returned was changed by later calls of other library functions (it shares storage with library state)' % nm,
+                      {'call': nm, 'how': 'run ./check C20; the result object of the first registered call is compared with its snapshot after all other registered calls'},
+                      {'fn': nm, 'what': 'result_changed_by_later_calls'})
+    for nm in ctx.extra.get('result_depends_on_calls_in_between', []):
+        ctx.violation('%s: the same call returns a different result after the other registered calls have run (dependence on the order of calls)' % nm,
+                      {'call': nm, 'how': 'run ./check C20; registered call %r is repeated at the end of the registry with the same random state' % nm},
+                      {'fn': nm, 'what': 'order_of_calls'})
     for nm in ctx.extra.get('repeat_result_differs', []):
         ctx.violation('%s: a second call with the same arguments (and the same random state) returns a different result' % nm,
                       {'call': nm, 'how': 'run ./check C20; registered call %r is executed twice with torch / numpy / random seeded identically' % nm},
